@@ -2008,10 +2008,12 @@ class TLSConnection(TLSRecordLayer):
         if certificateRequest:
             # if a peer doesn't advertise support for any algorithm in TLSv1.2,
             # support for SHA1+RSA can be assumed
-            if self.version == (3, 3)\
+            if self.version == (3, 3) and clientCertChain and privateKey \
                 and not [sig for sig in \
                          certificateRequest.supported_signature_algs\
-                         if sig[1] == SignatureAlgorithm.rsa]:
+                         if sig in self._sigHashesToList(settings,
+                                                         privateKey,
+                                                         clientCertChain)]:
                 for result in self._sendError(\
                         AlertDescription.handshake_failure,
                         "Server doesn't accept any sigalgs we support: " +
